@@ -3,6 +3,7 @@ package mbapp
 import (
 	"context"
 	"fmt"
+	"math"
 	"runtime"
 	"sync/atomic"
 	"time"
@@ -63,7 +64,7 @@ func New[A p2p.Addr, Pub any](x p2p.SecureSwarm[A, Pub], mtu int, opts ...Option
 func (s *Swarm[A, Pub]) Ask(ctx context.Context, resp []byte, dst A, req p2p.IOVec) (int, error) {
 	ctx, cf := context.WithTimeout(ctx, maxAskWait)
 	defer cf()
-	if p2p.VecSize(req) > s.mtu {
+	if p2p.VecSize(req) > s.MTU() {
 		return 0, p2p.ErrMTUExceeded
 	}
 	// create ask in map
@@ -104,7 +105,7 @@ func (s *Swarm[A, Pub]) Ask(ctx context.Context, resp []byte, dst A, req p2p.IOV
 }
 
 func (s *Swarm[A, Pub]) Tell(ctx context.Context, dst A, msg p2p.IOVec) error {
-	if p2p.VecSize(msg) > s.mtu {
+	if p2p.VecSize(msg) > s.MTU() {
 		return p2p.ErrMTUExceeded
 	}
 	return s.send(ctx, dst, sendParams{
@@ -145,6 +146,10 @@ func (s *Swarm[A, Pub]) LookupPublicKey(ctx context.Context, x A) (Pub, error) {
 }
 
 func (s *Swarm[A, Pub]) MTU() int {
+	// a message is split into at most 65535 parts
+	if max := (s.inner.MTU() - HeaderSize) * math.MaxUint16; max < s.mtu {
+		return max
+	}
 	return s.mtu
 }
 
@@ -271,6 +276,10 @@ func (s *Swarm[A, Pub]) send(ctx context.Context, dst A, params sendParams) erro
 	partCount := totalSize / partSize
 	if partSize*partCount < totalSize {
 		partCount++
+	}
+	if partCount > math.MaxUint16 {
+		// part index and count travel in 16-bit header fields
+		return p2p.ErrMTUExceeded
 	}
 	hdr.SetPartIndex(uint16(0))
 	hdr.SetPartCount(uint16(partCount))
